@@ -694,8 +694,17 @@ func argIsParamOf(o ssa.Value, fn *ssa.Function, idx int) bool {
 // methodParamOfRoot: the string parameter named method of the outermost function.
 func methodParamOfRoot(fn *ssa.Function) *ssa.Parameter {
 	root := fn
-	for root.Parent() != nil {
-		root = root.Parent()
+	for {
+		if root.Parent() != nil {
+			root = root.Parent()
+			continue
+		}
+		// a "virtual closure": continue in the function that holds its only call
+		if site := core.InlineSite[root]; site != nil {
+			root = site.Parent()
+			continue
+		}
+		break
 	}
 	// only a client entry point (ctx, *grpc.StreamDesc, method string, ...CallOption) receives the RPC's
 	// method name from the caller; a string parameter of any other function is whatever its callers computed
